@@ -79,6 +79,9 @@ pub struct FsState
     pub exec_snapshots : Option<Vec<(usize, Vec<String>, BTreeMap<String, Vec<u8>>)>>,
     /// yield to the scheduler before every System call (default: only calls on the cache directory and commands)
     pub yield_all : bool,
+    /// Some((p, q)): right after the next `is_file(p)` that answers true, the file is renamed to q — what a
+    /// build running beside the caller does when it restores p from the cache (one shot)
+    pub race : Option<(String, String)>,
 }
 
 #[derive(Clone)]
@@ -323,6 +326,7 @@ impl MemSys
                 in_command : false,
                 exec_snapshots : None,
                 yield_all : false,
+                race : None,
             })),
         }
     }
@@ -391,6 +395,12 @@ impl MemSys
     pub fn user_move(&self, from : &str, to : &str)
     {
         self.with(|s| { if from != to { if let Some(n) = s.disk.files.remove(from) { s.disk.files.insert(to.to_string(), n); } } });
+    }
+
+    /// arm the one-shot race of `FsState::race`
+    pub fn set_race(&self, from : &str, to : &str)
+    {
+        self.with(|s| { s.race = Some((from.to_string(), to.to_string())); });
     }
 
     pub fn user_set_exec(&self, path : &str, exec : bool)
@@ -570,6 +580,17 @@ impl System for MemSys
         let mut g = self.state.lock().unwrap();
         let r = g.disk.is_file(path);
         g.record("is_file", path, "", r, false);
+        if r
+        {
+            if let Some((p, q)) = g.race.clone()
+            {
+                if p == path
+                {
+                    g.race = None;
+                    if let Some(n) = g.disk.files.remove(&p) { g.disk.files.insert(q, n); }
+                }
+            }
+        }
         r
     }
 
